@@ -4,7 +4,7 @@ from . import core
 from .core import Outcome, Infra, log
 
 PID = 'C13'
-INVS = ['C13_NoPanic', 'C13_ErrorReported', 'C13_NoWedge', 'C13_EndedOnce', 'C13_Multi', 'C13_NoUnackedDurable']
+INVS = ['C13_NoPanic', 'C13_ErrorReported', 'C13_NoWedge', 'C13_EndedOnce', 'C13_Multi', 'C13_NoUnackedDurable', 'C13_NotEndedTwice']
 
 
 def trace_cfg(keys, vals, invs):
